@@ -9,6 +9,8 @@ import sys
 import time
 import traceback
 
+import z3
+
 VERIF = os.path.dirname(os.path.dirname(os.path.abspath(__file__)))
 # evidence/ and replays/ normally live in /verif; the seeded-change harness redirects them so that a run against a
 # deliberately broken scratch copy never overwrites the evidence of the real tree
@@ -104,14 +106,32 @@ def run_task(task):
         elif task["kind"] == "lemma":
             lem = reg.lemmas[task["name"]]
             from pyvc.symex import Obl
-            for (nm, hyps, goal) in lem.fn():
+            from pyvc.symex import Unsupported as _Uns
+            try:
+                items = list(lem.fn())
+            except _Uns as e:
+                out["unsupported"] = f"lemma {lem.name}: {e}"
+                items = []
+            for item in items:
+                nm, hyps, goal = item[:3]
+                replay_hook = item[3] if len(item) > 3 else None
                 o = Obl(name=f"lemma:{lem.name}/{nm}", hyps=list(hyps), goal=goal, props=lem.props)
                 r = solve.discharge(o, timeout_ms=task["timeout_ms"])
                 r = settle_unknown(o, r, task, solve)
                 d = r.to_dict()
                 d["inputs_model"] = None
+                if r.status == "failed" and replay_hook is not None:
+                    # a lemma generated from the real code (C16 site tables) can turn its counter-model into a native run
+                    try:
+                        d["replay"] = replay_hook(r.model)
+                    except Exception:
+                        d["replay"] = dict(reproduced=False, detail="replay hook failed: " + traceback.format_exc()[-600:])
                 out["results"].append(d)
-            # canary: the hypotheses of each lemma obligation must be satisfiable
+                # canary: the hypotheses of each lemma obligation must be satisfiable (only an `unsat` answer matters)
+                if hyps:
+                    cn = solve.discharge(Obl(name=f"lemma:{lem.name}/{nm}/canary", hyps=list(hyps), goal=z3.BoolVal(False), props=lem.props, kind="canary"),
+                                         timeout_ms=task["timeout_ms"])
+                    out["results"].append(cn.to_dict())
         elif task["kind"] == "bounded":
             import importlib
             mod = importlib.import_module(task["module"])
